@@ -41,6 +41,7 @@ package crlreader
 
 //@ func StreamingCRLFileReader.ReadCRL
 //@   props C06 C07 C04 C01 C11
+//@   ensures[C06] update_times_are_the_ones_read: called(CRLProcessor.StartUpdateCrl#1) ==> called(ReadUtcTime#1) && arg(CRLProcessor.StartUpdateCrl#1, 1).ThisUpdate == after(ReadUtcTime#1, *res(ReadUtcTime#1, 0)) && (called(ReadUtcTime#2) ==> arg(CRLProcessor.StartUpdateCrl#1, 1).NextUpdate == after(ReadUtcTime#2, *res(ReadUtcTime#2, 0))) && (!called(ReadUtcTime#2) ==> arg(CRLProcessor.StartUpdateCrl#1, 1).NextUpdate == 0)
 //@   ensures[C04,C06,C11] parsed_extensions_reach_the_gate_and_the_result: called(parseExtensions#1) && res(parseExtensions#1, 1) == nil && called(CheckForCriticalUnhandledCRLExtensions#1) ==> arg(CheckForCriticalUnhandledCRLExtensions#1, 0) == res(parseExtensions#1, 0) && (r1 == nil ==> r0.CRLExtensions == res(parseExtensions#1, 0))
 
 //@ func parseRevokedCertificateList
